@@ -147,7 +147,7 @@ class C18(Prop):
                 out.append([c, l])
             return out
         # (a) every file of 1..k lines over a set of lengths x every run pattern x final newline
-        lset, k = ([7, 10, 23], 4) if tier == "quick" else ([7, 10, 23], 6)
+        lset, k = ([7, 10, 23], 4) if tier == "quick" else ([7, 10, 23], 7)
         for n in range(1, k + 1):
             for lens in itertools.product(lset, repeat=n):
                 for mask in itertools.product([False, True], repeat=n - 1):
@@ -203,7 +203,7 @@ class C18(Prop):
             for mask in itertools.product([False, True], repeat=2):
                 yield sx([2, files_from(lens, mask), 1, 1]), ["indexer", "grouped", "indexer-lines=3", "non-ascii"]
         # (e) larger files: longer runs, many chromosomes, random lengths (bisection depth > 3)
-        for _ in range(150 if tier == "quick" else 3000):
+        for _ in range(150 if tier == "quick" else 10000):
             nchrom = rng.randint(1, 8)
             f = []
             for c in range(1, nchrom + 1):
